@@ -23,6 +23,9 @@ type C02Case struct {
 	Hist     HistCfg     `json:"hist"`
 	Writers  [][]WriteOp `json:"writers"`
 	Watchers []WatchSpec `json:"watchers"`
+	// StoreFaults: 1-based indices of backing-store writes that are rejected (tapped variants): the failed write must
+	// be invisible to the state and to every watcher
+	StoreFaults []int `json:"store_faults,omitempty"`
 }
 
 type c02 struct{}
@@ -120,6 +123,11 @@ func (c02) Gen(seed uint64, tier string) Case {
 	for i := 0; i < nwatch; i++ {
 		c.Watchers = append(c.Watchers, genWatchSpec(r, types, nids))
 		prefixes = append(prefixes, fmt.Sprintf("watcher%d", i))
+	}
+	if strings.Contains(c.Variant, "+tap") && r.Bool(0.25) {
+		for i := 0; i < 1+r.Intn(3); i++ {
+			c.StoreFaults = append(c.StoreFaults, 1+r.Intn(12))
+		}
 	}
 	c.Policy = genPolicy(r, prefixes)
 	return c
@@ -633,6 +641,19 @@ func (c02) Run(t *testing.T, cs Case, trace bool) *Outcome {
 	hasTap := strings.HasSuffix(c.Variant, "+tap")
 	st, panics, berr := simrt.Run(t, simrt.Config{Seed: c.Seed, Policy: c.Policy, Trace: trace}, func(s *simrt.Sim) {
 		w := NewStoreWorld(c.Variant, c.Hist)
+		if len(c.StoreFaults) > 0 {
+			nwrites := 0
+			w.failWrite = func(kind, typ, id string) error {
+				nwrites++
+				for _, f := range c.StoreFaults {
+					if f == nwrites {
+						out.fault("backing-store-write-rejected:" + kind)
+						return errStoreFault
+					}
+				}
+				return nil
+			}
+		}
 		ctx, cancel := context.WithCancel(context.Background())
 		defer cancel()
 		env := &watchEnv{prop: "C02", st: w.Core, ev: &ev, out: out, commits: func(ns, typ string) int {
